@@ -122,7 +122,12 @@ def run_nested(req):
     expression that, given `top`, obtains the very function object by calling/attribute access."""
     obs = []
     ns = {}
-    exec(compile(req["src"], "<c12-nested>", "exec"), ns)
+    try:
+        exec(compile(req["src"], "<c12-nested>", "exec"), ns)
+    except SyntaxError:
+        if "[T]" in req["src"]:
+            return {"obs": [], "stats": {"depth": len(req["path"]), "syntax_not_available": 1}}   # PEP 695 before 3.12
+        raise
     top = ns["top"]
     fn = eval(req["getter"], {"top": top})
     want = fn.__code__
@@ -285,6 +290,19 @@ def run_customize(req):
         def elab(frame, nxt):
             calls.append("e")
             return repl
+    if elab is not None and req.get("callable_kind") == "falsy_object":
+        # the elaborate callback is a callable OBJECT that is falsy (a container-like handler registry that is empty,
+        # say): it is still the callback
+        class FalsyCallable:
+            def __init__(self, fn):
+                self.fn = fn
+
+            def __call__(self, frame, nxt):
+                return self.fn(frame, nxt)
+
+            def __len__(self):
+                return 0
+        elab = FalsyCallable(elab)
     res = {}
 
     def inner():
